@@ -347,6 +347,11 @@ func oneTrace(w *traceWriter, rng *rand.Rand, id int, st *stats) {
 	if id%4 == 3 {
 		np, ns = 1, 1
 	}
+	if id%6 == 4 {
+		// slow-path pressure: many processors feeding one slow-path processor through short queues
+		// (queue size = max(links*batch/processors, batch))
+		np, ns, batch = 3, 1, 1+rng.Intn(2)
+	}
 
 	r := &run{byPkt: map[*router.Packet]*bufInfo{}, sites: map[string]int{}}
 	r.lastEv.Store(time.Now().UnixNano())
@@ -457,19 +462,24 @@ func oneTrace(w *traceWriter, rng *rand.Rand, id int, st *stats) {
 	families := []int{}
 	for round := 0; round < rounds; round++ {
 		// 0,1: mixed traffic  2: egress pressure (slow / failing writers)  3: long bursts
-		family := rng.Intn(4)
-		if round == 0 {
-			family = id % 4
+		// 4: slow-path pressure (only packets answered by SCMP, long bursts, slow writers)
+		// 5: STUN pressure on the internal link
+		family := rng.Intn(6)
+		if round == 0 || (id%6 == 4 && rng.Intn(10) < 7) {
+			family = id % 6
 		}
 		families = append(families, family)
 		faulty := 10 + rng.Intn(40) // percent of WriteBatch calls with a fault
 		if family == 2 {
 			faulty = 70
 		}
+		if family >= 4 {
+			faulty = 50
+		}
 		op.family.Store(int64(family))
 		op.faulty.Store(int64(faulty))
 		nbursts := 3 + rng.Intn(10)
-		if family == 3 {
+		if family >= 3 {
 			nbursts = 6 + rng.Intn(10)
 		}
 		type feed struct {
@@ -480,13 +490,19 @@ func oneTrace(w *traceWriter, rng *rand.Rand, id int, st *stats) {
 		for i := 0; i < nbursts; i++ {
 			c := corpus()
 			k := 1 + rng.Intn(2*batch+1)
-			if family == 3 {
+			if family >= 3 {
 				k = batch + rng.Intn(3*batch+1)
+			}
+			if family == 4 {
+				k = 4 + rng.Intn(12)
 			}
 			// all packets of a burst arrive on one socket
 			via := uint16(rng.Intn(4))
 			if via == 3 && !withSibling {
 				via = 1
+			}
+			if family == 5 {
+				via = 0
 			}
 			var cand []rtpkt.Named
 			for _, n := range c {
